@@ -117,7 +117,14 @@ FullFails(e) ==
       \cup
       (IF e.tag = "mate" /\ Completed(e.infos, 2) /\ l2 # 0 /\ l2 <= Len(e.sends) /\ mate1 = {} /\ safe # {}
           /\ DescOf(e.sends[l2].s) \notin (safe \cup drawn)
-       THEN {<<"C11", "walks-into-mate", D(e.infos[l2].raw)>>} ELSE {}))
+       THEN {<<"C11", "walks-into-mate", D(e.infos[l2].raw)>>} ELSE {})
+      \cup
+      \* the search gave up by itself (the clock never expired) after it had entered its second iteration: what it handed
+      \* over last is its choice with all the time in the world, and a choice that walks into a mate in one although a safe
+      \* move exists is not excused by the iteration never having been finished
+      (IF e.tag = "mate" /\ Has(e, "ended") /\ e.ended /\ e.last_depth >= 2 /\ mate1 = {} /\ safe # {}
+          /\ e.final_txt \notin {MoveText(m) : m \in safe \cup drawn}
+       THEN {<<"C11", "gives-up-and-walks-into-mate", D(<<e.cmd, e.final_txt>>)>>} ELSE {}))
   \cup MateClaimFails(root, e.infos, hasHistory)
   \* (C11, stalemate never scored as mate: a stalemating move announced as `mate 1` fails MateWithin above; the scenario
   \* generator supplies positions with a stalemating move one ply away)
